@@ -12,7 +12,7 @@ from lib import vlib
 from lib.vlib import Infra
 
 SPEC = os.path.join(vlib.SPECS, "ledger")
-SIZE = {"quick": (6, 5), "thorough": (120, 9)}
+SIZE = {"quick": (8, 5), "thorough": (120, 9)}
 
 
 def record(work, tier, seed):
